@@ -287,6 +287,10 @@ impl Decoder for Codec {
                     OpCode::Pong => Ok(Some(Frame::Pong(
                         payload.map(|pl| pl.freeze()).unwrap_or_else(Bytes::new),
                     ))),
+                    // a new data message must not start inside a fragmented one (RFC 6455 §5.4)
+                    OpCode::Binary | OpCode::Text if self.flags.contains(Flags::CONTINUATION) => {
+                        Err(ProtocolError::ContinuationStarted)
+                    }
                     OpCode::Binary => Ok(Some(Frame::Binary(
                         payload.map(|pl| pl.freeze()).unwrap_or_else(Bytes::new),
                     ))),
